@@ -39,6 +39,11 @@ var c20Payloads = []struct{ Name, V string }{
 	{"literal-unicode-escapes", `denied \u003cadmin\u003e a \u0026 b \x3cscript\x3e %3Cb%3E &#60;i&#62;`},
 	// long values (length thresholds): markup followed by a long tail
 	{"long-value-with-markup", `<plaintext>.payments-reconciliation-and-settlement-service-eu-west-1`},
+	// runs of dashes in front of '>' (a value copied into an HTML comment ends it; replacing "--" pairwise
+	// leaves one pair in an odd run), without blanks so that they also fit a raw query string
+	{"comment-close-odd-dashes", `---><script>alert(1)</script>`},
+	{"comment-close-five-dashes", `-----><img/src=x/onerror=alert(1)>`},
+	{"comment-close-bang", `--!><script>alert(1)</script><!--`},
 	{"long-attribute-breakout", `"><img src=x onerror=alert(1)>` + strings.Repeat("a", 80)},
 }
 
@@ -190,6 +195,39 @@ func c20Run(c *fw.Ctx) {
 			return harness.NewRequest("POST", "/"+ae.Slug+"/redeem", harness.AuthHost, h, []byte(b))
 		}},
 	}
+	// positions outside any parameter the services know: the raw query string and request headers that
+	// logging / diagnostics code typically copies (a value that net/http refuses there is not expressible)
+	for _, side := range []string{"proxy", "auth"} {
+		side := side
+		host, path := hostA, "/oauth2/callback?error=access_denied"
+		if side == "auth" {
+			host, path = harness.AuthHost, "/"+ae.Slug+"/callback?error=access_denied"
+		}
+		hdrs := func(accept string) http.Header {
+			h := http.Header{}
+			if side == "proxy" && accept == "application/json" {
+				h.Set("X-Requested-With", "XMLHttpRequest")
+			} else if accept != "" {
+				h.Set("Accept", accept)
+			}
+			return h
+		}
+		positions = append(positions, c20Position{Name: side + "/error-page/raw-query-text", Side: side, JSON: true, Build: func(w *c20World, v, accept string) *http.Request {
+			return harness.NewRequest("GET", path+"&x="+v, host, hdrs(accept), nil)
+		}})
+		for _, hn := range []string{"X-Forwarded-For", "User-Agent", "Referer", "X-Forwarded-Host"} {
+			hn := hn
+			positions = append(positions, c20Position{Name: side + "/error-page/header-" + hn, Side: side, JSON: true, Build: func(w *c20World, v, accept string) *http.Request {
+				h := hdrs(accept)
+				if hn == "X-Forwarded-For" {
+					h.Set(hn, "10.0.0.1, "+v)
+				} else {
+					h.Set(hn, v)
+				}
+				return harness.NewRequest("GET", path, host, h, nil)
+			}})
+		}
+	}
 	healthyIdP(ae, "bob@corp.test")
 	pe.Auth.Answer = func(cl *harness.AuthCall) harness.AuthAnswer { cl.Answer = "500"; return ans(500, "x") }
 	render := func(p c20Position, v, accept string) (status int, ctype, body string, ok bool) {
@@ -228,7 +266,8 @@ func c20Run(c *fw.Ctx) {
 		// plain text, images first
 		accepts := []string{"", "*/*", "text/plain", "image/avif,image/webp,*/*;q=0.8"}
 		if p.JSON {
-			accepts = append(accepts, "application/json")
+			// JSON alone, and lists naming both renderings in either order (what fetch()/axios and browsers send)
+			accepts = append(accepts, "application/json", "application/json, text/html", "text/html, application/json", "application/json, text/plain, */*", "text/html,application/xhtml+xml,application/xml;q=0.9,*/*;q=0.8")
 		}
 		accept := accepts[x.Choose("accept", len(accepts))]
 		asJSON := accept == "application/json"
@@ -269,6 +308,9 @@ func c20Run(c *fw.Ctx) {
 			return // plain text (http.Error): not a page
 		}
 		c.Res.Count("positive_html_pages_checked", 1)
+		if i := strings.LastIndex(body, "</html>"); i >= 0 && strings.HasPrefix(strings.TrimSpace(body[i+7:]), "{") {
+			viol("second-rendering-after-page/"+p.Name, "the HTML page is followed by a JSON rendering of the same error in the same response body")
+		}
 		if st != bs {
 			// a payload may legitimately be refused where the benign value is not (or vice versa): compare with
 			// the benign rendering of the same status only
@@ -309,8 +351,8 @@ func init() {
 	fw.Register(&fw.Check{
 		ID:    "C20",
 		Level: "exploration",
-		Rule: "full product of 17 payloads (text that already looks escaped, long values with markup, thorough: plus each of the 256 byte values inside a benign value and all 400 ordered pairs of 20 metacharacters in front of an event-handler-shaped tail) (URL-bearing text, brace-prefixed text, script element, attribute break-out with double and single quotes, </title> break-out, javascript: URL, entity-encoded markup, UTF-7, overlong UTF-8, NUL, template actions, comment break-out, CR/LF/TAB) x 14 request-controlled positions on the real services " +
-			"(proxy callback `error`; authenticator callback `error`, sign-in page redirect_uri query / raw path / host label / state and parameter names, sign-out page redirect_uri and session email, sign-in / sign-out page with a javascript:-scheme redirect_uri whose host is in domain, sign_in / start / client_id / redeem error responses) x Accept {none, */*, text/plain, images first, application/json (or XHR) where the position has a JSON rendering}; a response without a declared type is taken for what a browser would sniff; " +
+		Rule: "full product of 20 payloads (also odd runs of dashes before '>' and '--!>', which close an HTML comment) (text that already looks escaped, long values with markup, thorough: plus each of the 256 byte values inside a benign value and all 400 ordered pairs of 20 metacharacters in front of an event-handler-shaped tail) (URL-bearing text, brace-prefixed text, script element, attribute break-out with double and single quotes, </title> break-out, javascript: URL, entity-encoded markup, UTF-7, overlong UTF-8, NUL, template actions, comment break-out, CR/LF/TAB) x 24 request-controlled positions on the real services (the 14 below plus, for each service's error page, the raw query text and the X-Forwarded-For, User-Agent, Referer and X-Forwarded-Host request headers) " +
+			"(proxy callback `error`; authenticator callback `error`, sign-in page redirect_uri query / raw path / host label / state and parameter names, sign-out page redirect_uri and session email, sign-in / sign-out page with a javascript:-scheme redirect_uri whose host is in domain, sign_in / start / client_id / redeem error responses) x Accept {none, */*, text/plain, images first, application/json (or XHR) where the position has a JSON rendering, and there also lists naming JSON and HTML in either order, the axios default and a browser's list}; a response without a declared type is taken for what a browser would sniff; " +
 			"oracle: the HTML token structure (element names and attribute names, via golang.org/x/net/html's tokenizer) equals that of the same page rendered with a benign value, no URL attribute carries a script URL, and JSON bodies parse; " +
 			"distinct_nontrivial = distinct (position, payload, json, status, reflected?)",
 		Assumptions:    []string{"a payload that makes the request unparseable for net/http or is refused with another status than the benign value is not compared", "browser parsing is approximated by the x/net/html tokenizer"},
